@@ -4,9 +4,10 @@ CONSTANTS MaxInt = 5
  MaxDepth = 8
  WithApi = FALSE
  EmitPaths = TRUE
+ WithFaults = FALSE
 SPECIFICATION Spec
 VIEW view
 ACTION_CONSTRAINT Emit
 INVARIANTS InvDesc InvOwed
-PROPERTIES FailedCallChangesNothing FreshDesc
+PROPERTIES FailedCallChangesNothing FreshDesc FaultIsError
 CHECK_DEADLOCK FALSE
